@@ -38,6 +38,22 @@ fn hostile_real_line(rng: &mut Rng) -> String {
     format!("{{{}}}", parts.join(","))
 }
 
+/// single expressions: a statement with several projections stops at the first that fails, so each also runs alone
+const HOSTILE_EXPRESSIONS: &[&str] = &[
+    "i + i", "i * i", "i - 1", "i + 1", "- i", "abs ( i )", "i / 0", "i / ( - 1 )", "i / -1", "pow ( i , 2 )", "pow ( 2 , i )", "pow ( i , i )", "i * -1", "( i - 1 ) / -1", "least ( i , -1 ) / -1",
+    "ia [ i ]", "ia [ 0 ]", "ia [ -9223372036854775807 - 1 ]", "ia [ 9223372036854775807 ]", "array_length ( ia ) / 0",
+    "r + r", "r * r", "r / 0.0", "sqrt ( r )", "pow ( r , r )", "- r", "abs ( r )", "r :: text", "least ( r , 1.0 )", "array_unique ( array [ r , r , 0.0 , sqrt ( r ) ] )", "r = sqrt ( r )", "r IN ( r , sqrt ( r ) )",
+    "ts + iv", "ts - iv", "iv + iv", "iv - iv", "- iv", "abs ( iv )", "iv :: int", "iv :: real", "ts - ts", "( ts :: text ) :: timestamp", "greatest ( ts , ts )",
+    "date_trunc ( 'day' , ts )", "date_trunc ( 'hour' , ts )", "date_trunc ( 'month' , ts )", "date_trunc ( 'year' , ts )", "date_trunc ( 'second' , ts )", "EXTRACT ( epoch FROM ts )", "EXTRACT ( hour FROM ts )",
+    "make_timestamp ( i , i , i , i , i , i , i )", "make_timestamp ( 2021 , 3 , 28 , 2 , 30 , 0 , 0 )", "make_timestamp ( 2018 , 11 , 4 , 0 , 30 , 0 , 0 )", "make_timestamp ( 262142 , 12 , 31 , 23 , 59 , 59 , 999 )",
+    "CASE WHEN r > 0.0 THEN i / 0 ELSE i END", "length ( k ) / length ( k )", "upper ( k ) :: int", "k :: real", "k :: timestamp", "k :: interval",
+];
+const HOSTILE_AGGREGATES: &[&str] = &[
+    "SUM ( i )", "AVG ( i )", "STDDEV ( i )", "VARIANCE ( i )", "SUM ( i ) * 2", "SUM ( i ) + 9223372036854775807", "MIN ( i ) - 1", "MAX ( i ) + 1", "- MIN ( i )", "MIN ( i ) / -1", "COUNT ( * ) / 0",
+    "SUM ( r )", "AVG ( r )", "STDDEV ( r )", "VARIANCE ( r )", "MIN ( r )", "MAX ( r )", "PERCENTILE ( r , 0.5 )", "PERCENTILE ( r , 1.0 )", "PERCENTILE ( r , 0.0 )", "COUNT ( DISTINCT r )", "ARRAY_AGG ( r )",
+    "SUM ( iv )", "AVG ( iv )", "MIN ( iv )", "MAX ( iv )", "STDDEV ( iv )", "VARIANCE ( iv )", "MIN ( ts )", "MAX ( ts )", "PERCENTILE ( ts , 0.5 )", "COUNT ( DISTINCT ts )", "STRING_AGG ( k , ',' )", "BOOL_AND ( i > 0 )",
+];
+
 const HOSTILE_STATEMENTS: &[&str] = &[
     "SELECT r , COUNT ( * ) FROM t GROUP BY r", "SELECT DISTINCT r FROM t", "SELECT MIN ( r ) , MAX ( r ) , SUM ( r ) , AVG ( r ) , STDDEV ( r ) , VARIANCE ( r ) FROM t GROUP BY k",
     "SELECT PERCENTILE ( r , 0.5 ) , PERCENTILE ( r , 1.0 ) , PERCENTILE ( r , 0.0 ) FROM t", "SELECT COUNT ( DISTINCT r ) FROM t", "SELECT SUM ( i ) FROM t", "SELECT AVG ( i ) , STDDEV ( i ) , VARIANCE ( i ) FROM t GROUP BY k",
@@ -105,7 +121,14 @@ impl Monitor for C09 {
             }
             _ => {
                 let lines: Vec<String> = (0..(1 + rng.below(8))).map(|_| hostile_real_line(rng)).collect();
-                json!({"kind": "hostile", "tables": hostile_real_table(), "stmt": *rng.pick(HOSTILE_STATEMENTS), "files": [[lines.join("\n"), "\n"]], "format": format})
+                let stmt = match rng.below(6) {
+                    0 => rng.pick(HOSTILE_STATEMENTS).to_string(),
+                    1 | 2 => format!("SELECT {} FROM t", rng.pick(HOSTILE_EXPRESSIONS)),
+                    3 => format!("SELECT k FROM t WHERE ( {} ) IS NOT NULL", rng.pick(HOSTILE_EXPRESSIONS)),
+                    4 => format!("SELECT {} FROM t{}", rng.pick(HOSTILE_AGGREGATES), if rng.chance(1, 2) { " GROUP BY k" } else { "" }),
+                    _ => format!("SELECT k FROM t GROUP BY k HAVING {} IS NOT NULL", rng.pick(HOSTILE_AGGREGATES)),
+                };
+                json!({"kind": "hostile", "tables": hostile_real_table(), "stmt": stmt, "files": [[lines.join("\n"), "\n"]], "format": format})
             }
         }
     }
